@@ -69,6 +69,8 @@ type Case struct {
 	Binds []Bind     `json:"binds"` // bindings of hook "h"
 	Ticks []string   `json:"ticks"` // binding names in arrival order ("os"/"os1" belong to hook "o")
 	Fails []FailRule `json:"fails"`
+	// Late: while a queue sleeps after its first failed execution, a tick for hook "late" arrives in that queue
+	Late bool `json:"late,omitempty"`
 }
 
 func gen(t *rapid.T) Case {
@@ -98,6 +100,7 @@ func gen(t *rapid.T) Case {
 			Kind:    rapid.SampledFrom([]string{"exit", "exit", "bad-metrics", "bad-patch", "invalid-patch-op"}).Draw(t, "kind"),
 		})
 	}
+	c.Late = rapid.Bool().Draw(t, "late")
 	return c
 }
 
@@ -114,7 +117,7 @@ type exec struct {
 
 func crontabOf(name string) string {
 	// one crontab per binding name: s0..s3, os, os1, bm, b1
-	m := map[string]string{"s0": "0 0 1 1 *", "s1": "0 0 2 1 *", "s2": "0 0 3 1 *", "s3": "0 0 4 1 *", "os": "0 0 5 1 *", "os1": "0 0 6 1 *", "bm": "0 0 7 1 *", "b1": "0 0 8 1 *"}
+	m := map[string]string{"s0": "0 0 1 1 *", "s1": "0 0 2 1 *", "s2": "0 0 3 1 *", "s3": "0 0 4 1 *", "os": "0 0 5 1 *", "os1": "0 0 6 1 *", "bm": "0 0 7 1 *", "b1": "0 0 8 1 *", "lm": "0 0 9 1 *", "l1": "0 0 10 1 *"}
 	return m[name]
 }
 
@@ -159,6 +162,10 @@ func runCase(c Case) (ev.Info, error) {
 	}
 	kit.Must(env.Tree.AddHook("h", 0o755, vh.Script{Config: dh.JSON(), Rules: hRules}))
 	kit.Must(env.Tree.AddHook("o", 0o755, vh.Script{Config: do.JSON(), Rules: oRules}))
+	dlate := hcfg.D{Schedules: []hcfg.Sched{{Name: "lm", Crontab: crontabOf("lm"), Queue: "main"}, {Name: "l1", Crontab: crontabOf("l1"), Queue: "q1"}}}
+	bind["lm"], bind["l1"] = Bind{Name: "lm", Queue: "main"}, Bind{Name: "l1", Queue: "q1"}
+	hookOf["lm"], hookOf["l1"] = "late", "late"
+	kit.Must(env.Tree.AddHook("late", 0o755, vh.Script{Config: dlate.JSON()}))
 	kit.Must(env.Tree.AddHook("blk", 0o755, vh.Script{Config: dblk.JSON(), Rules: []vh.Rule{{Do: vh.Behaviour{Gate: "g0"}}}}))
 	if err := env.Assemble(); err != nil {
 		return info, fmt.Errorf("harness: assemble: %v", err)
@@ -288,9 +295,60 @@ func runCase(c Case) (ev.Info, error) {
 	if discardRisk {
 		info.Labels = append(info.Labels, "mixed-allowFailure-combined")
 	}
+	// the late ticks: as soon as the end record of a failing execution shows up, a tick of hook "late" is
+	// injected for the queue of that execution (once per queue); its task goes to the tail of the sleeping queue
+	lateInjected := map[string]bool{}
+	stopLate, lateDone := make(chan struct{}), make(chan struct{})
+	go func() {
+		defer close(lateDone)
+		if !c.Late {
+			return
+		}
+		for {
+			select {
+			case <-stopLate:
+				return
+			default:
+			}
+			rs, _ := env.Tree.ReadLog()
+			failing := map[string]string{} // hook/seq of a scripted failure -> queue
+			for _, r := range rs {
+				if r.Phase == "start" && r.Rule >= 0 && (r.Hook == "h" || r.Hook == "o") {
+					var arr []map[string]any
+					_ = json.Unmarshal(r.Context, &arr)
+					if len(arr) > 0 {
+						bn, _ := arr[0]["binding"].(string)
+						failing[fmt.Sprintf("%s/%d", r.Hook, r.Seq)] = bind[bn].Queue
+					}
+				}
+			}
+			for _, r := range rs {
+				if r.Phase != "end" {
+					continue
+				}
+				if qn, ok := failing[fmt.Sprintf("%s/%d", r.Hook, r.Seq)]; ok && !lateInjected[qn] {
+					lateInjected[qn] = true
+					env.Tick(crontabOf(map[string]string{"main": "lm", "q1": "l1"}[qn]))
+				}
+			}
+			time.Sleep(500 * time.Microsecond)
+		}
+	}()
 	kit.Must(env.Tree.OpenGate("g0"))
-	if !env.WaitIdle(5*time.Millisecond, 40*time.Second) {
+	idle := env.WaitIdle(5*time.Millisecond, 40*time.Second)
+	close(stopLate)
+	<-lateDone
+	if !idle {
 		return info, fmt.Errorf("queues did not drain within 40s after the blocker was released (a task is retried forever or stuck)")
+	}
+	if idle && len(lateInjected) > 0 {
+		// the late tasks may still be on their way
+		env.WaitIdle(5*time.Millisecond, 40*time.Second)
+	}
+	for qn := range lateInjected {
+		// the late task was appended to the tail of the queue: it runs after everything else of that queue
+		expected[qn] = append(expected[qn], exec{hook: "late", ctx: []string{map[string]string{"main": "lm", "q1": "l1"}[qn]}})
+		info.Labels = append(info.Labels, "task-queued-during-back-off")
 	}
 	recs, _ := env.Tree.ReadLog()
 	type obs struct {
@@ -360,7 +418,7 @@ func runCase(c Case) (ev.Info, error) {
 	return info, nil
 }
 
-const rule = "the real operator on a fake cluster; hook h with 2-4 schedule bindings (allowFailure, group, queue main/q1), hook o with one binding per queue, a blocker hook parked on a gate in both queues while 1-8 ticks are injected (so tasks pile up and get combined), 1-2 failure rules 'fail k times (k in 1..3) whenever binding X is in the contexts' by non-zero exit, malformed metrics, malformed patch or invalid patch operation; after the gate opens the per-queue sequence of executions in the hook log must equal the sequence prescribed by the property (combine model + retry until success unless every involved binding allows failure, nothing else of the queue in between), and every retry starts >= the initial delay after the failed run ended. Non-trivial: a failure occurred while >= 1 other task was queued behind it."
+const rule = "the real operator on a fake cluster; hook h with 2-4 schedule bindings (allowFailure, group, queue main/q1), hook o with one binding per queue, a blocker hook parked on a gate in both queues while 1-8 ticks are injected (so tasks pile up and get combined), 1-2 failure rules 'fail k times (k in 1..3) whenever binding X is in the contexts' by non-zero exit, malformed metrics, malformed patch or invalid patch operation; after the gate opens the per-queue sequence of executions in the hook log must equal the sequence prescribed by the property (combine model + retry until success unless every involved binding allows failure, nothing else of the queue in between), and every retry starts >= the initial delay after the failed run ended; in half of the cases a tick of a further hook is injected into a queue as soon as its first failing execution ended (a task arriving during the back-off sleep), expected to run last. Non-trivial: a failure occurred while >= 1 other task was queued behind it."
 
 func TestRetry(t *testing.T) {
 	ev.Main(t, ev.Spec[Case]{Property: "C04", Part: "retry", Rule: rule, Gen: gen, Run: runCase, Journal: true})
